@@ -54,6 +54,10 @@ ASSUMPTIONS = [
 ]
 
 NULL = ("0.0.0.0", 0)
+# (message id, body after the circuit id) of cells other than DATA that the harness sends as cells of their own
+CELL_BODIES = {"ping": (6, struct.pack(">H", 7)),
+               "establish-intro": (9, struct.pack(">H", 1) + b"\x11" * 20 + struct.pack(">H", 4) + b"abcd"),
+               "establish-rendezvous": (11, struct.pack(">H", 1) + b"\x22" * 20)}
 CTYPES = ["DATA", "IP_SEEDER", "RP_SEEDER", "RP_DOWNLOADER"]      # Circuit.ctype of a circuit this node originated
 
 
@@ -209,9 +213,33 @@ class Env:
             "DestroyPayload", "TestRequestPayload", "TestResponsePayload", "EstablishIntroPayload", "IntroEstablishedPayload",
             "EstablishRendezvousPayload", "RendezvousEstablishedPayload", "LinkE2EPayload", "LinkedE2EPayload") if hasattr(P, n)}
         self.declared_exit_ids = sorted(self.ov.exit_msg_ids) if hasattr(self.ov, "exit_msg_ids") else []
+        # A handler reached through on_data's re-dispatch (a cell nested in a DATA payload) is only recorded.  A cell that
+        # arrives as a cell of its own runs the REAL handler when it is one of the harmless ones (ping, pong and the
+        # hidden-services establish-intro / establish-rendezvous, which act on an exit socket); other types are recorded.
+        self.in_on_data = 0
+        real_on_data = self.ov.decode_map_private[DataPayload.msg_id]
+
+        def on_data_wrapper(src, data, cid=None):
+            self.in_on_data += 1
+            try:
+                return real_on_data(src, data, cid)
+            finally:
+                self.in_on_data -= 1
+        self.ov.decode_map_private[DataPayload.msg_id] = on_data_wrapper
+        run_for_real = {getattr(P, n).msg_id for n in ("PingPayload", "PongPayload", "EstablishIntroPayload",
+                                                         "EstablishRendezvousPayload") if hasattr(P, n)}
+
+        def wrap(mid, real):
+            def handler(src, data, cid=None):
+                if self.in_on_data:
+                    self.log.append(("handler", mid, src, cid))
+                    return None
+                self.log.append(("cell-handler", mid, src, cid))
+                return real(src, data, cid) if mid in run_for_real else None
+            return handler
         for mid in list(self.ov.decode_map_private):
             if mid != DataPayload.msg_id:
-                self.ov.decode_map_private[mid] = (lambda src, data, cid, m=mid: self.log.append(("handler", m, src, cid)))
+                self.ov.decode_map_private[mid] = wrap(mid, self.ov.decode_map_private[mid])
         # one message type that IS meant to come back through an exit (like PeersResponse/CreatedE2E of the hidden-services
         # overlay): registered by the harness, allowed from exits where the tree has such a notion
         self.EXIT_MSG = 200
@@ -851,7 +879,7 @@ def draw_event(rng, env: Env, h, pend_gates, pend_dns, open_fams):
     elif r < 0.65:
         dest = ("4", "0.0.0.0", 0)
     elif r < 0.78:
-        dest = ("6", rng.choice(["2001:db8::1", "::", "::1"]), rng.choice([6881, 0]))
+        dest = ("6", rng.choice(["2001:db8::1", "::", "::1", "::ffff:0.0.0.0", "::ffff:93.184.216.34"]), rng.choice([6881, 0]))
     else:
         dest = ("d", rng.choice(["tracker.example.org", "0.0.0.0", "0", "router.example", "localhost"]),
                 rng.choice([6969, 0, 0]))
@@ -1018,6 +1046,13 @@ async def run_history(ctx: Ctx, env: Env, h, fixed_events=None):
         elif e["ev"] == "peer-moves":
             ctx.count("B:peer-moves:" + env.peer_moves(cid, e["ip"], e["port"]))
             line = None
+        elif e["ev"] == "cell":
+            # another (non-DATA) cell of this circuit, really encrypted, from some source address: whatever its handler does, it
+            # must not open the exit socket nor change which address may open it
+            body = CELL_BODIES[e["msg"]]
+            ctx.count("B:other-cell:" + e["msg"] + ":" + env.deliver_cell((e["src"][0], e["src"][1]), cid,
+                                                                     env.pfx + bytes([body[0]]) + struct.pack(">I", cid) + body[1]))
+            line = None
         elif e["ev"] == "join":
             line, join_reply = await do_join({"cid": cid, "ip": e["ip"], "port": e["port"], "known": e.get("known")})
             enabled_before.setdefault(cid, False)
@@ -1160,7 +1195,7 @@ async def run_history(ctx: Ctx, env: Env, h, fixed_events=None):
             if e["fam"] == 6 and any(x[0] == "emit" and x[2] == 6 for x in new):
                 ctx.count("B:branch:open6:flush-emitted-through-v6-transport")
         # ---- canonical reply, same shape as the driver's ----
-        if e["ev"] == "peer-moves":
+        if e["ev"] in ("peer-moves", "cell"):
             continue                      # not an event of the model: hop addresses are immutable there
         if e.get("garbled"):
             es_g = sockobj.get(cid)
@@ -1341,6 +1376,9 @@ REQUIRED_BRANCHES = [
     "C:config:A=builder:set", "C:config:A=builder:list", "C:config:A=builder:list-via-json", "C:config:A=builder:tuple",
     "C:config:A=default-config-edited-in-place:set", "C:config:A=default-config-edited-in-place:list",
     "C:config:B=builder:empty-initialize", "C:config:B=default-config-untouched", "C:config:B=default-config-untouched:also-before-A",
+    # cells other than DATA, arriving as cells of their own on an exit circuit, real handlers
+    "G:base:other-cell-before-data:ping", "G:hidden:other-cell-before-data:ping", "G:hidden:other-cell-before-data:establish-intro",
+    "G:hidden:other-cell-before-data:establish-rendezvous",
 ]
 
 
@@ -1406,6 +1444,41 @@ def run_branch_grid(ctx: Ctx, env: Env, use_model: bool):
             if rep != im and id(h) not in bad:
                 bad.add(id(h))
                 ctx.disagree(f"branch grid, step `{ln[:160]}`: model `{rep[:300]}` != implementation `{im[:300]}`",
+                             {"part": "B", "line": ln, "model": rep, "impl": im, "history": h})
+    env.loop.run_until_complete(env.clear())
+
+
+def run_cell_grid(ctx: Ctx, env: Env, use_model: bool):
+    """other cells before the first DATA cell: <cell type> from a foreign address, then DATA from that address (must not open),
+    then DATA from the CREATE source (opens), transports, an outside datagram (must be tunnelled back to the CREATE source)"""
+    ok_p = b"d1:ad2:id20:abcdefghij0123456789e"
+    msgs = ["ping"] + (["establish-intro", "establish-rendezvous"] if env.community == "hidden" else [])
+    all_lines, all_impl, owners = [], [], []
+    for hop in HOP_IPS[:2]:
+        for msg in msgs:
+            for stranger in ("10.0.0.9", near_misses(hop)[0][1]):
+                cell = lambda ip, dest=("4", "93.184.216.34", 6881): {"ev": "data", "src": [ip, 5000], "cid": 77, "dest": list(dest),  # noqa: E731
+                                                                      "data": ok_p.hex(), "pkind": "grid"}
+                evs = [{"ev": "cell", "src": [stranger, 5000], "cid": 77, "msg": msg}, cell(stranger), cell(hop),
+                       {"ev": "cell", "src": [stranger, 5000], "cid": 77, "msg": msg},
+                       {"ev": "open", "cid": 77, "fam": 4}, {"ev": "open", "cid": 77, "fam": 6},
+                       {"ev": "outside", "cid": 77, "fam": 4, "host": "8.8.8.8", "port": 53, "data": ok_p.hex()},
+                       cell(hop, ("6", "::ffff:0.0.0.0", 0)), cell(hop, ("6", "::ffff:93.184.216.34", 6881))]
+                h = {"flags": [env.F_RELAY, env.F_BT], "socks": [{"cid": 77, "ip": hop, "port": 5000}], "circs": [], "tunnel_ep": False,
+                     "style": "grid", "n": len(evs), "events": []}
+                lines, impl, _ = env.loop.run_until_complete(run_history(ctx, env, h, fixed_events=evs))
+                ctx.count(f"G:{env.community}:other-cell-before-data:{msg}")
+                ctx.case(("G", "cell", env.community, hop, msg, stranger), nontrivial=True, n=len(lines) - 1)
+                all_lines += lines
+                all_impl += impl
+                owners += [h] * len(lines)
+    if use_model:
+        replies = ctx.driver().batch(all_lines)
+        bad = set()
+        for ln, rep, im, h in zip(all_lines, replies, all_impl, owners):
+            if rep != im and id(h) not in bad:
+                bad.add(id(h))
+                ctx.disagree(f"cell grid ({env.community}), step `{ln[:160]}`: model `{rep[:300]}` != implementation `{im[:300]}`",
                              {"part": "B", "line": ln, "model": rep, "impl": im, "history": h})
     env.loop.run_until_complete(env.clear())
 
@@ -1582,6 +1655,7 @@ def check_hidden_community(ctx: Ctx):
             ctx.disagree(f"HiddenTunnelCommunity().exit_msg_ids = {runtime} but the source declares from_exit=True for {declared}",
                          {"part": "exit-ids", "runtime": runtime, "declared": declared})
         run_opening_grid(ctx, env, ctx.model_ok, nested_only=True)
+        run_cell_grid(ctx, env, ctx.model_ok)
     finally:
         env.close()
 
@@ -1608,6 +1682,7 @@ def run(ctx: Ctx):
                          {"part": "exit-ids", "runtime": sorted(env.declared_exit_ids), "declared": base_decl})
         run_opening_grid(ctx, env, ctx.model_ok)
         run_branch_grid(ctx, env, ctx.model_ok)
+        run_cell_grid(ctx, env, ctx.model_ok)
         run_gate(ctx, env, ctx.model_ok, wide=ctx.thorough())
         import os
         run_paths(ctx, env, int(os.environ.get("C06_HISTORIES", ctx.scale(400, 20000))), ctx.model_ok)   # override: self-test of the grids only
